@@ -29,7 +29,7 @@ Steps, applied to every function of the analysed packages:
      xs.append(e)`, `d = {}; for ..: d[k] = v`, `n = 0; for ..: n += e`), and a
      list comprehension that is the sole argument of tuple/list/set/sum/any/all/
      sorted/min/max/join/dict becomes a generator expression
- C7  small identities: `.get(k, None)` = `.get(k)`; `isinstance(x, A) or
+ C7  small identities: `a < b < c` = `a < b and b < c` (side-effect-free b); `.get(k, None)` = `.get(k)`; `isinstance(x, A) or
      isinstance(x, B)` = `isinstance(x, (A, B))`; `x = x + e` = `x += e`;
      `list(d.keys())` = `list(d)`; annotated assignments to plain names
  C8  helpers that do not exist on the reference tree (see alpha.py: the
@@ -315,6 +315,14 @@ class _ExprNorm(ast.NodeTransformer):
 
     def visit_Compare(self, node: ast.Compare):
         self.generic_visit(node)
+        # a < b < c  ==  a < b and b < c   (the middle operands are evaluated once: only for side-effect-free ones)
+        if len(node.ops) > 1 and all(_pure_expr(c) for c in node.comparators[:-1]):
+            parts = []
+            left = node.left
+            for op, right in zip(node.ops, node.comparators):
+                parts.append(_loc(ast.Compare(copy.deepcopy(left), [op], [right]), node))
+                left = right
+            return self.visit(_loc(ast.BoolOp(ast.And(), parts), node))
         # x in d.keys() == x in d
         if len(node.ops) == 1 and isinstance(node.ops[0], (ast.In, ast.NotIn)):
             c = node.comparators[0]
@@ -936,6 +944,18 @@ def canonicalise(tree: ast.Module, ref_funcs: Optional[Set[str]], ref_consts: Op
                 if n:
                     stats["inlined_helpers"] += n
                     fn.body = canon.function_body(fn.body)
+            # a helper every call of which was inlined is gone from the canonical form (its code now lives in its callers)
+            for name, (hdef, _is_m) in helpers.items():
+                short = hdef.name
+                still = any((isinstance(x, ast.Name) and x.id == short) or (isinstance(x, ast.Attribute) and x.attr == short) or (isinstance(x, ast.Constant) and x.value == short) for x in ast.walk(tree) if x is not hdef)
+                if not still:
+                    for _q, _cls, f2, container in funcs:
+                        if f2 is hdef and hdef in container:
+                            container.remove(hdef)
+                            if not container:
+                                container.append(ast.Pass())
+                            stats["dropped_helpers"] = stats.get("dropped_helpers", 0) + 1
+            funcs = [t for t in funcs if not (t[2] in [h[0] for h in helpers.values()] and t[2] not in t[3])]
     if ref_consts is not None:
         consts: Dict[str, ast.expr] = {}
         for st in tree.body:
